@@ -91,7 +91,7 @@ SPEC = dict(
                  "the EOF token has no first character: the position asked for is the end of the input (the code's stale Pos/Lpos there is the known finding eof-stale-position); an EOF that follows an error token (the lexer has stopped) is compared between model and code only",
                  "positions of errors raised inside a string interpolation \"{{...}}\" are relative to the interpolated snippet (rt_value.go parses the code as its own source 'String interpolation: <code>'): the unit of 'the source text the user sees' is the parsed unit (C14's unit); no C18 case contains {{ }}; break points never match inside a snippet",
                  "the error token of an UNTERMINATED block comment has the comment convention (Pos = first byte after the opener /*): parser.Error points two columns right of the /* (plant 'a := /* c'); declared, proved (token_starts_at_first_character) and compared, not counted as a deviation",
-                 "planted runtime errors are those the interpreter raises as *util.RuntimeError (24 plants incl. failed variable / container access and failed import, which are positioned since fixes/C18-access-errors-positioned.patch); the 45 NewRuntimeError / 11 newParserError sites are not enumerated",
+                 "planted runtime errors are those the interpreter raises as *util.RuntimeError (11 parse + 13 runtime plants); failed variable / container access and failed import (4 plants, kinds A / Y, plain and inside try) are bare errors without position: known finding access-errors-unpositioned (candidate repair fixes/C18-access-errors-positioned.patch not applied: it changes the error type programs and the C04-C06 models observe; a repaired tree is accepted); inside a called function the interpreter re-wraps such an error at the CALL token - not planted; the 45 NewRuntimeError / 11 newParserError sites are not enumerated",
                  "kind B drives the debugger through its Go API on ONE source name: SetBreakPoint / DisableBreakPoint / RemoveBreakPoint, first and second suspension (Continue with Resume), break point on a continuation line; the textual commands (break / rmbreak / disablebreak via HandleInput), break points in imported sources and the source part of a break target containing ':' (debug_cmd.go splits at the first colon - a source-name matter, not a line matter) are not exercised"],
     decode=decode,
 )
